@@ -888,6 +888,9 @@ def offset_labels(labels: np.ndarray, ngroups: int) -> tuple[np.ndarray, int]:
 
 def _factorize_single(by, expect, *, sort: bool, reindex: bool) -> tuple[pd.Index, np.ndarray]:
     flat = by.reshape(-1)
+    if isinstance(expect, pd.RangeIndex) and not (expect.start == 0 and expect.step == 1):
+        # labels are their own codes only for RangeIndex(0, n); any other range is handled like a generic Index
+        expect = pd.Index(expect.to_numpy())
     if isinstance(expect, pd.RangeIndex):
         # idx is a view of the original `by` array
         # copy here so we don't have a race condition with the
@@ -898,7 +901,7 @@ def _factorize_single(by, expect, *, sort: bool, reindex: bool) -> tuple[pd.Inde
         found_groups = cast(pd.Index, expect)
         # TODO: fix by using masked integers
         if len(expect) > 0:
-            idx[idx > expect[-1]] = -1
+            idx[(idx > expect[-1]) | (idx < 0)] = -1
         else:
             # no groups at all (e.g. every label is missing)
             idx[:] = -1
